@@ -211,11 +211,15 @@ import datetime as _dt  # noqa: E402
 _OMD = pvl.collections.OrderedMultiDict
 _Quantity = pvl.collections.Quantity
 _Empty = pvl.parser.EmptyValueAtLine
+_PMD = getattr(pvl.collections, "PVLMultiDict", None)   # needs multidict
 
 
 def class_tag(v):
     """Container class name; a user's subclass counts as its library base
     (the parsers accept module_class/group_class/object_class)."""
+    tag = getattr(type(v), "_verif_tag", None)
+    if tag is not None:
+        return tag
     for base in (pvl.collections.PVLGroup, pvl.collections.PVLObject,
                  pvl.collections.PVLModule):
         if isinstance(v, base):
@@ -230,6 +234,9 @@ def canon(v, _d=0):
     if isinstance(v, _OMD):
         return (class_tag(v),
                 tuple((k, canon(x, _d + 1)) for k, x in list(v)))
+    if _PMD is not None and isinstance(v, _PMD):
+        return (type(v).__name__,
+                tuple((k, canon(x, _d + 1)) for k, x in list(v.items())))
     if isinstance(v, _Quantity):
         return ("Quantity", canon(v.value, _d + 1), ("str", str(v.units)))
     if isinstance(v, list):
